@@ -61,6 +61,12 @@ func (w *World) reference(l *Ledger, now time.Time, count bool) *epochRef {
 			}
 			continue
 		}
+		if !g.Perp && g.Filled >= g.N {
+			// only reachable after a reported divergence was adopted (resync): the module keeps a gauge active that
+			// has had its n paying epochs. The statement says it is finished and pays nothing.
+			g.Status = StFinished
+			continue
+		}
 		var q []int
 		var total int64
 		sizes := map[int64]bool{}
